@@ -125,6 +125,7 @@ class Interp:
         self.binder_stack: list = []
         self.alloc_log = None
         self.pure_ctx: list = []
+        self.pure_extra: list = []   # conditions of enclosing conditional expressions in purely evaluated real code
         self.alive_pre = self.alive
 
     # ------------------------------------------------------------------ basics
@@ -157,6 +158,8 @@ class Interp:
         if z3.is_true(f):
             return
         if self.binder_stack:
+            if self.pure_extra:
+                f = z3.Implies(z3.And(self.pure_extra), f)
             self.binder_stack[-1].append(f)
             return
         self.pc.append(f)
@@ -266,6 +269,7 @@ class Interp:
         for (cs, g) in self.pure_ctx:
             consts += cs
             guards.append(g)
+        guards += self.pure_extra
         goal = z3.Implies(z3.And(guards), cond) if guards else cond
         if consts:
             goal = z3.ForAll(consts, goal)
